@@ -294,6 +294,8 @@ def main(chk):
     quick = chk.tier == 'quick'
     chk.bounds = {'prefix': '0..32 (each) x symbolic address bytes', 'families x blocks': '1x1 and 1x2' if quick else 'up to 2x2', 'BitLength': '0..64'}
     ob_roundtrip(chk, ir)
+    from symx import selfcheck
+    selfcheck.obligation(chk, {'net'}, ir)      # encode / decode / net.* kernels: encoding vs native build on concrete blocks
     ob_membership(chk, ir, 1, 1, range(0, 6))
     ob_membership(chk, ir, 1, 2, (0, 2, 4) if quick else range(0, 5))
     if not quick: ob_membership(chk, ir, 2, 1, (0, 1, 3, 4))
